@@ -61,21 +61,21 @@ func ruleShapeCatalogue(c *Ctx, rule string) {
 		inv = append(inv, root+":"+shape)
 		want, known := shapeTable[root]
 		if !known || seen[root] {
-			c.check(rule, "NEW-CONSTRUCT:envelope:"+root+":"+shape, false, "envelope construction site not in the catalogue of the "+fmt.Sprint(len(shapeTable))+" sites the README grammar accounts for", p.ipos(e.Alloc))
+			c.check(rule, "NEW-CONSTRUCT:envelope:"+root+":"+shape, false, "envelope construction site not in the catalogue of the "+fmt.Sprint(len(shapeTable))+" sites the README grammar accounts for", p.ipos(e.At()))
 			continue
 		}
 		seen[root] = true
-		c.check(rule, "envelope:"+root, shape == want, fmt.Sprintf("constructed shape %s; protocol shape for this site %s (? = conditionally present)", shape, want), p.ipos(e.Alloc))
+		c.check(rule, "envelope:"+root, shape == want, fmt.Sprintf("constructed shape %s; protocol shape for this site %s (? = conditionally present)", shape, want), p.ipos(e.At()))
 		// every envelope carries a header with method, source, destination
 		if e.HFields == nil {
 			if root != "client.RpcMultiplexer.CallUnaryMethod" { // header literal built by invoke, checked there
-				c.check(rule, "envelope:"+root+":header-literal", false, "Header is not a local literal: addressing cannot be checked", p.ipos(e.Alloc))
+				c.check(rule, "envelope:"+root+":header-literal", false, "Header is not a local literal: addressing cannot be checked", p.ipos(e.At()))
 			}
 			continue
 		}
 		for _, hf := range []string{"Method", "Source", "Destination"} {
 			fs := e.HFields[hf]
-			c.check(rule, "envelope:"+root+":Header."+hf, len(fs.Stores) > 0 && fs.Must, "header field "+hf+" is set on every path", p.ipos(e.Alloc))
+			c.check(rule, "envelope:"+root+":Header."+hf, len(fs.Stores) > 0 && fs.Must, "header field "+hf+" is set on every path", p.ipos(e.At()))
 		}
 	}
 	for root := range shapeTable {
@@ -118,7 +118,7 @@ func ruleAddressing(c *Ctx, rule string) {
 		o := env.Fields["Id"].Origins
 		hasAlloc := o.Any(func(t *Term) bool { return Match(t, "call(sync/atomic.AddUint64,_,const(1))", nil) })
 		okAll, why := o.AllMatch("call(sync/atomic.AddUint64,_,const(1))", "const(0)")
-		c.check(rule, root+":Id", hasAlloc && okAll && env.Fields["Id"].Must, "Id ← "+why, p.ipos(env.Alloc))
+		c.check(rule, root+":Id", hasAlloc && okAll && env.Fields["Id"].Must, "Id ← "+why, p.ipos(env.At()))
 	}
 	// client: method/source/destination identical across the sites of a stream
 	for _, hf := range []string{"Method", "Source", "Destination"} {
@@ -131,10 +131,10 @@ func ruleAddressing(c *Ctx, rule string) {
 			o := env.HFields[hf].Origins
 			if ref == nil {
 				ref = o
-				c.check(rule, root+":Header."+hf, len(o) > 0, "reference origins "+o.String(), p.ipos(env.Alloc))
+				c.check(rule, root+":Header."+hf, len(o) > 0, "reference origins "+o.String(), p.ipos(env.At()))
 				continue
 			}
-			c.check(rule, root+":Header."+hf, sameTermSet(o, ref), fmt.Sprintf("%s of this envelope ← %s; the stream's other envelopes use %s (must be constant per stream and direction)", hf, o, ref), p.ipos(env.Alloc))
+			c.check(rule, root+":Header."+hf, sameTermSet(o, ref), fmt.Sprintf("%s of this envelope ← %s; the stream's other envelopes use %s (must be constant per stream and direction)", hf, o, ref), p.ipos(env.At()))
 		}
 	}
 	// and source ≠ destination roles: Source from the connection's source address, Destination from its dest
@@ -146,21 +146,21 @@ func ruleAddressing(c *Ctx, rule string) {
 		s, d := env.HFields["Source"].Origins, env.HFields["Destination"].Origins
 		okS, _ := s.AllMatch("param(goat.NewClientConn:source)")
 		okD, _ := d.AllMatch("param(goat.NewClientConn:dest)")
-		c.check(rule, root+":source/destination-roles", okS && okD, fmt.Sprintf("Source ← %s, Destination ← %s", s, d), p.ipos(env.Alloc))
+		c.check(rule, root+":source/destination-roles", okS && okD, fmt.Sprintf("Source ← %s, Destination ← %s", s, d), p.ipos(env.At()))
 	}
 	// server: emits only for ids received, and swaps source/destination of the request
 	for _, env := range serverSites {
 		root := p.fnKey(rootFn(env.Fn))
 		o := env.Fields["Id"].Origins
 		okId, why := o.AllMatch("field(Id,call(*RpcReadWriter).Read#0,...))")
-		c.check(rule, root+":Id", okId && env.Fields["Id"].Must, "server envelope Id ← "+why+" (must be the Id of an envelope it received)", p.ipos(env.Alloc))
+		c.check(rule, root+":Id", okId && env.Fields["Id"].Must, "server envelope Id ← "+why+" (must be the Id of an envelope it received)", p.ipos(env.At()))
 		if env.HFields == nil {
 			continue
 		}
 		s, d := env.HFields["Source"].Origins, env.HFields["Destination"].Origins
 		okS, _ := s.AllMatch("field(Destination,field(Header,call(*RpcReadWriter).Read#0,...)))")
 		okD, _ := d.AllMatch("field(Source,field(Header,call(*RpcReadWriter).Read#0,...)))")
-		c.check(rule, root+":swap", okS && okD, fmt.Sprintf("responses swap the request's addressing: Source ← %s, Destination ← %s", s, d), p.ipos(env.Alloc))
+		c.check(rule, root+":swap", okS && okD, fmt.Sprintf("responses swap the request's addressing: Source ← %s, Destination ← %s", s, d), p.ipos(env.At()))
 	}
 	// NewServerStream argument order (two string parameters: swapping them compiles)
 	rs := p.MustFn("goat.handler.runStream")
@@ -223,7 +223,7 @@ func ruleOnceOnly(c *Ctx, rule string) {
 	// client reset: built only under fact sendRst, and sendRst is false or "no trailer ∧ context done" at every caller
 	env := p.envelopeIn("client.NewStream$" + strings.TrimPrefix(p.fnKey(p.teardownClosure()), "client.NewStream$"))
 	td := p.teardownClosure()
-	c.check(rule, "teardown:reset-only-if-sendRst", p.Facts(env.Alloc).True("p:sendRst"), "the reset envelope is built only under fact sendRst: "+p.Facts(env.Alloc).String(), p.ipos(env.Alloc))
+	c.check(rule, "teardown:reset-only-if-sendRst", p.Facts(env.At()).True("p:sendRst"), "the reset envelope is built only under fact sendRst: "+p.Facts(env.At()).String(), p.ipos(env.At()))
 	n := 0
 	for _, cs := range p.Callers(td) {
 		n++
@@ -436,7 +436,7 @@ func ruleUnaryReplyComplete(c *Ctx, rule string) {
 	env := p.envelopeIn("goat.handler.processUnaryRpc")
 	for _, fn := range []string{"Header", "Trailer"} {
 		fs := env.Fields[fn]
-		c.check(rule, "reply:"+fn, fs.Must && !fs.MaybeNil, "unary reply always carries "+fn, p.ipos(env.Alloc))
+		c.check(rule, "reply:"+fn, fs.Must && !fs.MaybeNil, "unary reply always carries "+fn, p.ipos(env.At()))
 	}
 	// Body stored under facts resp != nil ∧ marshal ok
 	n := 0
